@@ -112,8 +112,8 @@ func zzDrawInner() zzInnerResp {
 	if n > 0 {
 		b.copies = verifrt.Bool("body-sent-with-io-copy")
 	}
-	if b.explicit && n == 1 && !b.copies {
-		b.flushes = verifrt.Bool("flush-after-the-status")
+	if n == 1 && !b.copies {
+		b.flushes = verifrt.Bool("flush-before-the-body")
 	}
 	return b
 }
@@ -143,10 +143,11 @@ func (h zzInner) ServeHTTP(w http.ResponseWriter, r *http.Request) (int, error) 
 	}
 	if b.explicit {
 		w.WriteHeader(b.status)
-		if b.flushes {
-			if f, ok := w.(http.Flusher); ok {
-				f.Flush()
-			}
+	}
+	if b.flushes {
+		// after the explicit status, or before anything else has been written
+		if f, ok := w.(http.Flusher); ok {
+			f.Flush()
 		}
 	}
 	for _, c := range b.chunks {
